@@ -253,6 +253,66 @@ def evalCopier (p : Pending) (obsToks : List String) : String :=
   let head := s!"RES {p.prop} {p.id} eq={b eq} hm={b hm} hi={b hi} miss={b (!badTok.isEmpty)} crash={b (obsToks.contains "crash")}"
   if eq && hi && hm && badTok.isEmpty then head else head ++ " | " ++ showLog pm ++ " | " ++ showLog pi
 
+/-! language `fs` -/
+
+def locOf (path : Bytes) : List Bytes := (Fs.segs path).filter (!·.isEmpty)
+
+def patternBytes (size seed : Nat) : Bytes := (List.range size).map fun i => UInt8.ofNat ((i * 7 + seed) % 251)
+
+partial def replaceFirst (pat rep : Bytes) (xs : Bytes) : Bytes :=
+  match breakOn pat xs with
+  | some (a, r) => a ++ rep ++ r
+  | none => xs
+
+def evalFs (p : Pending) (glob : Oracle) (obsToks : List String) : String :=
+  let ora : Oracle := { urls := glob.urls ++ p.ora.urls, pages := glob.pages ++ p.ora.pages, misc := p.ora.misc }
+  let env := ora.env
+  let root := (p.toks.findSome? fun t => match fields t with | ["root", r] => some (unhex r) | _ => none).getD []
+  let evs : List Event := p.toks.filterMap fun t => match fields t with | ["root", _] => none | _ => parseEvent t
+  let entries : List (List Bytes × Fs.Kind × Nat × Nat) := ora.misc.filterMap fun f => match f with
+    | ["fs", path, "d", _] => some (locOf (unhex path), .dir, 0, 0)
+    | ["fs", path, "f", size, seed] => some (locOf (unhex path), .file, toNat size, toNat seed)
+    | _ => none
+  let tree : Fs.Tree := entries.map fun e => (e.1, e.2.1)
+  let mimes : List (List Bytes × Bytes) := ora.misc.filterMap fun f => match f with
+    | ["mime", path, m] => some (locOf (unhex path), unhex m) | _ => none
+  let lsts : List (List Bytes × Bytes) := ora.misc.filterMap fun f => match f with
+    | ["lst", path, b] => some (locOf (unhex path), unhex b) | _ => none
+  let t1 := "<title>/</title>".toUTF8.toList
+  let h1 := "<h1>/</h1>".toUTF8.toList
+  let fe : FsHandler.FsEnv :=
+    { root := root, tree := tree,
+      content := fun loc => match entries.find? (·.1 == loc) with | some (_, _, sz, sd) => patternBytes sz sd | none => [],
+      mime := fun loc => ((mimes.find? (·.1 == loc)).map (·.2)).getD MISS,
+      listing := fun loc decoded =>
+        match lsts.find? (·.1 == loc) with
+        | none => MISS
+        | some (_, b) =>
+          let esc := C07.htmlEscape decoded
+          let b := replaceFirst t1 ("<title>/".toUTF8.toList ++ esc ++ "</title>".toUTF8.toList) b
+          replaceFirst h1 ("<h1>/".toUTF8.toList ++ esc ++ "</h1>".toUTF8.toList) b }
+  let mlog := (FsHandler.run env fe evs).sock.log
+  let ilog := (obsToks.filter (· != "end")).filterMap parseObs
+  let badTok := obsToks.filter (fun t => t != "end" && (parseObs t).isNone)
+  let pm := mergeW mlog
+  let pi := mergeW ilog
+  let stream := Scenario.fed evs
+  let snap := (C01.headOf stream).bind (C01.expect env)
+  let path := (snap.map (·.path.drop 1)).getD []
+  let rangeHdr := (snap.map fun s => HeaderMap.value FsHandler.RANGE s.headers).getD []
+  -- complete: the request was delivered whole and the event loop was given at least 4 turns
+  let complete := snap.isSome && (evs.filter fun e => match e with | .turn => true | _ => false).length ≥ 4 &&
+                  !(evs.any fun e => match e with | .peerClose => true | _ => false)
+  let hold (l : List Obs) : Bool :=
+    if p.prop == "C08" then C08.holds fe path rangeHdr complete l else C07.holds fe path complete l
+  let eq := pm == pi
+  let hm := hold mlog
+  let hi := hold ilog
+  let miss := containsMiss mlog || !badTok.isEmpty
+  let b (x : Bool) := if x then "1" else "0"
+  let head := s!"RES {p.prop} {p.id} eq={b eq} hm={b hm} hi={b hi} miss={b miss} crash={b (obsToks.contains "crash")}"
+  if eq && hi && hm && !miss then head else head ++ " | " ++ showLog pm ++ " | " ++ showLog pi
+
 partial def loop (h : IO.FS.Stream) (glob : Oracle) (cur : Pending) : IO Unit := do
   let line ← h.getLine
   if line.isEmpty then return ()
@@ -271,6 +331,7 @@ partial def loop (h : IO.FS.Stream) (glob : Oracle) (cur : Pending) : IO Unit :=
       | "route" => evalRoute cur glob rest
       | "auth" => evalAuth cur glob rest
       | "copier" => evalCopier cur rest
+      | "fs" => evalFs cur glob rest
       | l => s!"RES {cur.prop} {cur.id} eq=0 hm=0 hi=0 miss=1 crash=0 | unknown language {l}"
     IO.println out
     loop h glob cur
